@@ -41,7 +41,8 @@ class Check(Property):
                 e = rng.choice([1, -1, -2, 2])
                 steps.append({"f": "convert", "src": [[a, f"{e}/1"]], "dst": [[b, f"{e}/1"]], "x": "3/2"})
             elif r < 0.32:
-                steps.append({"f": "parse", "s": rng.choice(["ab", "km", "kilometer/hour", "mV", "fm", "inch", "ms", "Pa", "cd"])})
+                steps.append({"f": "parse", "s": rng.choice(["ab", "km", "kilometer/hour", "mV", "fm", "inch", "ms", "Pa", "cd",
+                                                             "ab/second", "fm/hour", "meter/ab", "qx/second", "smoot/second", "zork/hour"])})
             elif r < 0.44:
                 steps.append({"f": "base", "u": [[rng.choice(units), "1/1"]], "system": rng.choice(SYSTEMS + [None, None])})
             elif r < 0.52:
@@ -50,7 +51,11 @@ class Check(Property):
                 steps.append({"f": "default_system", "s": rng.choice(SYSTEMS + [None])})
             elif r < 0.66 and new_units < 3:
                 new_units += 1
-                nm = rng.choice(["zork", "ab", "smoot", "fm", "qx"]) + ("" if new_units == 1 else str(new_units))
+                nm = rng.choice(["zork", "ab", "smoot", "fm", "qx", "mt", "ab", "fm"]) + ("" if new_units == 1 else str(new_units))
+                if rng.random() < 0.7:
+                    # the spelling (alone and inside compound expressions) is looked up before it is defined
+                    for pre in rng.sample([nm, nm + "/second", "meter/" + nm], rng.randint(1, 3)):
+                        steps.append({"f": "parse", "s": pre})
                 ref = rng.choice(["meter", "second", "gram"])
                 steps.append({"f": "define", "name": nm, "scale": frac_s(Fraction(rng.choice([2, 5, 17]), rng.choice([1, 10]))), "ref": ref})
             elif r < 0.74:
@@ -83,6 +88,8 @@ class Check(Property):
                             "dst": [[k, tw.get(e, e)] for k, e in s["dst"]]})
         for nm in defined:
             out.append({"f": "parse", "s": nm})
+            out.append({"f": "parse", "s": nm + "/second"})     # compound expressions mentioning the new spelling
+            out.append({"f": "parse", "s": "meter/" + nm})
             out.append({"f": "root", "u": [[nm, "1/1"]]})
         out.append({"f": "base", "u": [[rng.choice(units), "1/1"]], "system": None})
         out.append({"f": "convert", "src": [["foot", "1/1"]], "dst": [["meter", "1/1"]], "x": "1/1"})
